@@ -13,6 +13,7 @@ import (
 	spb "github.com/openconfig/gribi/v1/proto/service"
 	"github.com/openconfig/gribigo/rib"
 
+	"verifh/internal/clock"
 	"verifh/internal/drive"
 	"verifh/internal/ev"
 	"verifh/internal/gen"
@@ -145,6 +146,7 @@ func NewRIB(fwdRefs bool, o Opts) *rib.RIB {
 func Run(h hgen.History, o Opts) (*ev.Verdict, *Trace) {
 	v := &ev.Verdict{}
 	tr := &Trace{}
+	clock.Install()
 	r := NewRIB(h.FwdRefs, o)
 	m := model.New("DEFAULT", hgen.NIs[1:], h.FwdRefs)
 	m.RefCheck = !o.NoRefCheck
@@ -157,7 +159,12 @@ func Run(h hgen.History, o Opts) (*ev.Verdict, *Trace) {
 	partialFlushed := false
 	P := o.P
 
+	clockUsed := false
 	for i, st := range h.Steps {
+		if st.Clock != 0 {
+			clock.Apply(st.Clock)
+			clockUsed = true
+		}
 		when := fmt.Sprintf("step %d", i)
 		if st.Op == nil {
 			when += fmt.Sprintf(" flush %v", st.Flush)
@@ -314,6 +321,9 @@ func Run(h hgen.History, o Opts) (*ev.Verdict, *Trace) {
 			// the model and the implementation have diverged; later steps would only echo it
 			return v, tr
 		}
+	}
+	if clockUsed {
+		v.Class("clock-stepped-or-frozen")
 	}
 	return v, tr
 }
